@@ -368,8 +368,7 @@ impl Model for M {
 	fn project(&self, w: &World) -> Value {
 		let opts = ProjOpts {
 			slots: slot_ids(w),
-			heights: false,
-		};
+			heights: false, canon_ids: true };
 		let sl = slots(w);
 		let slot_v: Vec<Value> = sl
 			.iter()
